@@ -155,7 +155,7 @@ PROPERTIES = {
             dict(mode="G", load_pkgs=["./internal/tscommon"], pkgpath=MOD + "/internal/tscommon", test_pkg="./internal/tscommon", test_pkgname="tscommon",
                  init=DEFAULT_INIT,
                  overlay={"internal/tscommon/zz_verif_c07.go": "harness/c07/c07_types.go", "internal/tscommon/zz_verif_c06w.go": "harness/c06/c06_wire.go@tscommon"},
-                 harnesses=[dict(func="VerifC07Field", reach=["C07/field/decided", "C07/field/kf-zero-omitted", "C07/field/kf-empty-null"], quick=dict(budget=200, parts=2), thorough=dict(budget=600, parts=4)),
+                 harnesses=[dict(func="VerifC07Field", reach=["C07/field/decided", "C07/field/kf-zero-omitted", "C07/field/empty-null"], quick=dict(budget=200, parts=2), thorough=dict(budget=600, parts=4)),
                             dict(func="VerifC07Flatten", reach=["C07/flatten/decided"], quick=dict(budget=60), thorough=dict(budget=200)),
                             dict(func="VerifC07Oneof", reach=["C07/oneof/decided", "C07/oneof/kf-nested", "C07/oneof/kf-unset", "C07/oneof/unset-decided"], quick=dict(budget=100), thorough=dict(budget=300)),
                             dict(func="VerifC07Unwrap", reach=["C07/unwrap/decided"], quick=dict(budget=100), thorough=dict(budget=300))]),
@@ -222,7 +222,7 @@ PROPERTIES = {
                          "internal/httpgen/zz_verif_c13.go": "harness/c13/c13_obligations.go", "internal/httpgen/zz_verif_c13o.go": "harness/c13/c13_oneof_names.go"},
                 harnesses=[dict(func="VerifC13ClientImports", reach=["C13/client-imports/decided"], quick=dict(budget=400, parts=8), thorough=dict(budget=1200, parts=16)),
                            dict(func="VerifC13CodecLocals", reach=["C13/codec-locals/decided"], quick=dict(budget=400, parts=8), thorough=dict(budget=1200, parts=16)),
-                           dict(func="VerifC13TSRouteConsts", reach=["C13/ts/decided", "C13/ts/kf-url"], quick=dict(budget=100), thorough=dict(budget=300)),
+                           dict(func="VerifC13TSRouteConsts", reach=["C13/ts/decided", "C13/ts/path-and-query"], quick=dict(budget=100), thorough=dict(budget=300)),
                            dict(func="VerifC13GoIdentifiers", reach=["C13/idents/decided", "C13/idents/kf"], quick=dict(budget=400, parts=4), thorough=dict(budget=1200, parts=8)),
                            dict(func="VerifC13OneMarshalerPerType", reach=["C13/marshalers/decided", "C13/marshalers/kf"], quick=dict(budget=200), thorough=dict(budget=600)),
                            dict(func="VerifC13OneofWrapperNames", reach=["C13/oneof-names/decided"], quick=dict(budget=100), thorough=dict(budget=300)),
@@ -232,7 +232,7 @@ PROPERTIES = {
                              "obligations are evaluated on the recorded emission trace (text of the P() calls) by scanners written in the harness"]),
     "C01": E_ROUNDTRIP(
         overlay={"gen/roundtrip/zz_verif_c01a.go": "harness/c01/c01_common.go", "gen/roundtrip/zz_verif_c01b.go": "harness/c01/c01_roundtrip.go"},
-        harnesses=[dict(func="VerifC01RoundTrip", reach=["C01/delivered", "C01/kf-zero-required", "C01/kf-octet-stream"], quick=dict(budget=400, parts=8), thorough=dict(budget=1500, parts=16))],
+        harnesses=[dict(func="VerifC01RoundTrip", reach=["C01/delivered", "C01/kf-zero-required", "C01/octet-stream"], quick=dict(budget=400, parts=8), thorough=dict(budget=1500, parts=16))],
         bounds_text={"quick": "one service with 5 RPCs (GET with path+4 query fields, POST body, PUT and PATCH path+body incl. repeated field, DELETE with int64 path variable); content type in {json, x-protobuf, octet-stream}; path-bound strings <= 2 chars over [ab +/%?#], query strings <= 2 over [ab &=+%], body strings <= 3 printable ASCII, all integers full range, response with symbolic id/total/ok and 0..1 items; client and server are the emitted code, joined by an in-process transport and the mux model"},
         assumptions=E_ASSUMPTIONS + ["url.PathEscape/QueryEscape with the mux's unescaping, and url.Values.Encode with URL.Query, are modelled as the documented inverse pairs; http.Client.Do = Transport.RoundTrip; ServeMux registration/dispatch by a segment matcher",
                                      "non-ASCII text, map/oneof/optional body fields and the JSON-mapping annotations are not in this check's schema (C04/C05 family)"]),
